@@ -3,6 +3,7 @@
 -/
 import Codec
 import BiscuitModel.Model.Versions
+import BiscuitModel.Model.Params
 open Lean Biscuit Biscuit.Codec
 
 def runExpr (j : Json) : P Json := do
@@ -447,6 +448,134 @@ def runPrint (j : Json) : P Json := do
 
 end PrintOp
 
+/-! ### params (C20) -/
+section ParamsOp
+open Biscuit.Printer Biscuit.Params Biscuit.Codec.Src
+
+def skeyJ : SKey → Json
+  | .int i => Json.mkObj [("int", Json.num (JsonNumber.fromInt i))]
+  | .str s => Json.mkObj [("str", s)]
+  | .param n => Json.mkObj [("param", n)]
+
+partial def stermJ : STerm → Json
+  | .var n => Json.mkObj [("var", n)]
+  | .int i => Json.mkObj [("int", Json.num (JsonNumber.fromInt i))]
+  | .str s => Json.mkObj [("str", s)]
+  | .date d => Json.mkObj [("date", Json.num (JsonNumber.fromNat d))]
+  | .bytes b => Json.mkObj [("bytes", hex b)]
+  | .bool b => Json.mkObj [("bool", Json.bool b)]
+  | .null => Json.mkObj [("null", Json.bool true)]
+  | .set xs => Json.mkObj [("set", Json.arr (xs.map stermJ).toArray)]
+  | .arr xs => Json.mkObj [("arr", Json.arr (xs.map stermJ).toArray)]
+  | .map kvs => Json.mkObj [("map", Json.arr (kvs.map fun (k, t) => Json.arr #[skeyJ k, stermJ t]).toArray)]
+  | .param n => Json.mkObj [("param", n)]
+
+def unJ : Un → Json
+  | .negate => Json.mkObj [("un", "negate")]
+  | .parens => Json.mkObj [("un", "parens")]
+  | .length => Json.mkObj [("un", "length")]
+  | .typeOf => Json.mkObj [("un", "type")]
+  | .ffi n => Json.mkObj [("un", "ffi"), ("name", n)]
+
+def binName : Bin → String
+  | .lt => "lt" | .gt => "gt" | .le => "le" | .ge => "ge" | .eq => "eq" | .contains => "contains"
+  | .prefix => "prefix" | .suffix => "suffix" | .regex => "regex" | .add => "add" | .sub => "sub"
+  | .mul => "mul" | .div => "div" | .and => "and" | .or => "or" | .intersection => "intersection"
+  | .union => "union" | .band => "band" | .bor => "bor" | .bxor => "bxor" | .ne => "ne" | .heq => "heq"
+  | .hne => "hne" | .lazyAnd => "lazyand" | .lazyOr => "lazyor" | .all => "all" | .any => "any"
+  | .get => "get" | .ffi _ => "ffi"
+
+partial def popJ : POp → Json
+  | .val t => Json.mkObj [("val", stermJ t)]
+  | .un u => unJ u
+  | .bin (.ffi n) => Json.mkObj [("bin", "ffi"), ("name", n)]
+  | .bin b => Json.mkObj [("bin", binName b)]
+  | .clo ps ops => Json.mkObj [("clo", Json.arr (ps.map Json.str).toArray), ("ops", Json.arr (ops.map popJ).toArray)]
+
+def spredJ (p : SPred) : Json := Json.mkObj [("name", p.name), ("terms", Json.arr (p.terms.map stermJ).toArray)]
+
+def sscopeJ : SScope → Json
+  | .authority => Json.mkObj [("authority", Json.bool true)]
+  | .previous => Json.mkObj [("previous", Json.bool true)]
+  | .key k => Json.mkObj [("key", k)]
+  | .param n => Json.mkObj [("param", n)]
+
+def sruleJ (r : Printer.SRule) : Json :=
+  Json.mkObj [("head", spredJ r.head), ("body", Json.arr (r.body.map spredJ).toArray),
+    ("exprs", Json.arr (r.exprs.map fun ops => Json.arr (ops.map popJ).toArray).toArray),
+    ("scopes", Json.arr (r.scopes.map sscopeJ).toArray)]
+
+def setResJ : SetResult → Json
+  | .ok => "ok"
+  | .unused n => Json.mkObj [("missing", Json.arr #[]), ("unused", Json.arr #[Json.str n])]
+
+def strsJ (xs : List String) : Json := Json.arr ((xs.toArray.qsort (· < ·)).map Json.str)
+
+/-- a check or policy sets on each of its queries: the strict setter succeeds when at least
+    one query declares the name -/
+def setAll (f : Item → Item × SetResult) (strict : Bool) (name : String) (qs : List Item) : List Item × SetResult :=
+  let rs := qs.map f
+  let found := rs.any fun r => r.2 == .ok
+  (rs.map (·.1), if !strict || found then .ok else .unused name)
+
+def runParams (j : Json) : P Json := do
+  let kind ← (← field j "kind").getStr?
+  let item ← field j "item"
+  let (single, queries) ← (match kind with
+    | "fact" => do
+      let p ← parseSPred item
+      pure (true, [({ rule := { head := p, body := [], exprs := [], scopes := [] } } : Item)])
+    | "rule" => do
+      pure (true, [({ rule := ← parseSRule item } : Item)])
+    | _ => do
+      let qs ← (← getArr (← field item "queries")).mapM parseSRule
+      pure (false, qs.map fun r => ({ rule := r } : Item)) : P (Bool × List Item))
+  let mut qs := queries
+  let mut outs : Array Json := #[]
+  for b in ← getArr (← field j "binds") do
+    let m ← (← field b "m").getStr?
+    let name ← (← field b "name").getStr?
+    if m == "set_scope" || m == "set_scope_lenient" then
+      let key ← (← field b "key").getStr?
+      if kind == "fact" then
+        outs := outs.push "ok"
+      else
+        let strict := m == "set_scope"
+        let (qs', r) :=
+          if single then
+            match qs with
+            | [it] => let (it', r) := (if strict then it.setScope name key else it.setScopeLenient name key); ([it'], r)
+            | _ => (qs, .ok)
+          else setAll (fun it => it.setScope name key) strict name qs
+        qs := qs'
+        outs := outs.push (setResJ r)
+    else
+      let v ← parseSTerm (← field b "value")
+      let strict := m == "set"
+      let (qs', r) :=
+        if single then
+          match qs with
+          | [it] => let (it', r) := (if strict then it.set name v else it.setLenient name v); ([it'], r)
+          | _ => (qs, .ok)
+        else setAll (fun it => it.set name v) strict name qs
+      qs := qs'
+      outs := outs.push (setResJ r)
+  -- validation stops at the first query with a name that has no value
+  let firstMissing := (qs.map Item.missing).find? (fun m => !m.isEmpty)
+  let validate : Json := match firstMissing with
+    | some m => Json.mkObj [("missing", strsJ m), ("unused", Json.arr #[])]
+    | none => "ok"
+  let applied := qs.map Item.apply
+  let residual := (applied.map residualRule).flatten
+  let kindJ : Json := (fieldOpt item "kind").getD Json.null
+  let conv : Json := match kind, applied with
+    | "fact", [r] => spredJ r.head
+    | "rule", [r] => sruleJ r
+    | _, rs => Json.mkObj [("kind", kindJ), ("queries", Json.arr (rs.map sruleJ).toArray)]
+  pure (Json.mkObj [("binds", Json.arr outs), ("validate", validate), ("converted", conv), ("residual", strsJ residual)])
+
+end ParamsOp
+
 def handle (line : String) : String :=
   match Json.parse line with
   | .error e => (Json.mkObj [("driver_error", s!"parse: {e}")]).compress
@@ -468,6 +597,7 @@ def handle (line : String) : String :=
       | "versions" => runVersions j
       | "symbols" => runSymbols j
       | "print" => runPrint j
+      | "params" => runParams j
       | _ => throw s!"unknown op {op}"
     match r with
     | .ok o => o.compress
